@@ -370,6 +370,13 @@ impl<RW: QueueRW<T>, T> MultiQueue<RW, T> {
                     if self.writers.load(Relaxed) == 0 {
                         fence(Acquire);
                         if rm_tag(read_cell.wraps.load(Acquire)) != wrap_valid_tag {
+                            // With several consumers on the stream the cursor used here may be
+                            // stale and the slot already rewritten for a later count. The end
+                            // may only be reported from the stream's current position
+                            if !is_single && reader.load_count(Relaxed) != wrap_valid_tag {
+                                ctail_attempt = ctail_attempt.reload();
+                                continue;
+                            }
                             return Err((ptr::null(), TryRecvError::Disconnected));
                         }
                     }
